@@ -348,7 +348,7 @@ func (e *Engine) rangeCallback(st *State, ci *callInfo) []multiOut {
 	outs := []multiOut{{zero, nil}}
 	// one iteration
 	st.loops = append(st.loops, ci.call)
-	e.emit(st, &Event{Kind: EvLoopBegin, Pos: ci.call.Pos(), Note: "Range"})
+	e.emit(st, &Event{Kind: EvLoopBegin, Pos: ci.call.Pos(), Note: "Range", Recv: ci.recv})
 	assigned := e.assignedIn(lit.Body)
 	inner := &callInfo{st: st, call: ci.call, fn: ci.args[0]}
 	for _, p := range lit.Type.Params.List {
